@@ -200,11 +200,17 @@ Definition multi_intersect_multi (x : bool) (l : list atom) (l' : list atom) : r
   else mk_multi x (l ++ filter (fun c => negb (atom_in c l)) l').
 Definition multi_intersect_atom (x : bool) (l : list atom) (b : atom) : res gs :=
   if atom_in b l then Ok (SMulti x l)
+  else if negb x then
+    (* single-valued: '== v' either satisfies every clause or none *)
+    if gop_eqb (aop b) GEq then (if forallb (fun a => atom_sat a (av b)) l then Ok (SAtom b) else Ok SEmpty)
+    else if atom_in (atom_invert b) l then Ok SEmpty
+    else mk_multi x (l ++ [b])
   else if value_in (av b) l then Ok SEmpty
-  else if gop_eqb (aop b) GEq && negb x then Ok (SAtom b)
   else mk_multi x (l ++ [b]).
+Definition is_substr_op (a : atom) : bool := match aop a with GIn | GNotIn => true | _ => false end.
 Definition multi_union_multi (x : bool) (l l' : list atom) : res gc :=
-  if x then
+  if negb x && existsb is_substr_op (l ++ l') then Ok (GU [SMulti x l; SMulti false l'])
+  else if x then
     let sub1 := forallb (fun a => atom_in a l') l in
     let sub2 := forallb (fun a => atom_in a l) l' in
     if sub1 then Ok (GS (SMulti x l))
@@ -217,7 +223,9 @@ Definition multi_union_multi (x : bool) (l l' : list atom) : res gc :=
     | _ => do m <- mk_multi x common; Ok (GS m)
     end.
 Definition multi_union_atom (x : bool) (l : list atom) (b : atom) : res gc :=
-  if x then
+  if negb x && existsb is_substr_op (l ++ [b]) then
+    (if atom_in b l then Ok (GS (SAtom b)) else Ok (GU [SMulti x l; SAtom b]))
+  else if x then
     if atom_in b l then Ok (GS (SAtom b))
     else if Nat.eqb (List.length l) 2 && value_in (av b) l
     then Ok (GU (map SAtom (filter (fun c => negb (String.eqb (av c) (av b))) l) ++ [SAtom b]))
